@@ -1,6 +1,6 @@
 CONSTANTS
   MaxN = 4
-  Pool = 25
+  Pool = 26
   Full3 = TRUE
 SPECIFICATION Spec
 INVARIANTS Export
